@@ -190,7 +190,7 @@ Step ==
        [] e.e = "op_end" ->
             /\ ended' = TRUE
             /\ UNCHANGED <<ph, deliv, blk, awaited, insec, secBoth, failObs, inl, viol, cnt>>
-       [] e.e \in {"op", "exec_begin", "exec_end"} ->
+       [] e.e \in {"op", "exec_begin", "exec_end", "pool_exit"} ->
             UNCHANGED <<ph, deliv, blk, awaited, insec, secBoth, failObs, ended, inl, viol, cnt>>
        [] OTHER ->
             \* a node event for something that is not a call site of the configuration (an argument holder executed,
